@@ -10,23 +10,36 @@ GENERATED = ["storage"]
 SOURCES = ["src/allmydata/storage/lease.py", "src/allmydata/storage/lease_schema.py", "src/allmydata/storage/immutable.py",
            "src/allmydata/storage/mutable.py", "src/allmydata/storage/server.py"]
 DESIGN_REF = "DESIGN.md §2 C25"
-TECHNIQUE = ("Lean 4 theorems over byte-exact models of the lease records, the v1 (cleartext) / v2 (hashed, abstract blake2b) "
-             "serializers and the add/renew functions of mutable and immutable containers; differential correspondence of "
-             "add_lease / renew_lease / data-write histories (lease lists and raw container bytes) against a real StorageServer "
-             "over v1 and v2, mutable and immutable containers; monitor scans raw bytes for secrets")
-LEVEL_TEXT = ("renew-or-add and no-backdating (both container kinds, renew path and add path), unknown-secret no-op/IndexError, "
-              "cancel_lease removing exactly the matching leases (mutable: holes; immutable: re-packed, count/length consistent) and the "
-              "unlink case, lease survival under data writes and container growth, and non-interference of the container bytes in "
-              "the secret for v2 containers proved in Lean; the model is tied to the code by comparing get_leases / "
-              "get_slot_leases and the raw bytes of every container after each operation.")
+TECHNIQUE = ("Lean 4 theorems (29) over byte-exact models of the lease records, the v1 (cleartext) / v2 (hashed, abstract blake2b) "
+             "serializers, add / renew / add_or_renew / cancel on mutable and immutable containers, the immutable upload "
+             "(allocate_buckets, BucketWriter.write with its size bound, close) and the server calls over whole buckets; differential "
+             "correspondence of a fixed corpus and seeded add_lease / renew_lease / cancel_lease / allocate / data-write histories (lease "
+             "lists and raw container bytes) against a real StorageServer over v1 and v2, mutable and immutable containers; the monitor "
+             "reads lease records from the raw bytes itself and scans v2 containers for cleartext secrets")
+LEVEL_TEXT = ("Proved in Lean: renew_or_add and no_backdating (both container kinds, renew path and add path); at the server level "
+              "add_lease_no_duplicate, allocate_no_duplicate, renew_lease_keeps_lease_counts, server_lease_ops_keep_every_lease "
+              "(add_lease / renew_lease / allocate_buckets over mixed buckets), rtw_keeps_every_lease (slot_testv_and_readv_and_writev); "
+              "unknown_renew_noop_error (+ _server); cancel_removes_exactly (+ _immutable), cancel_unknown_noop_error (+ _immutable), "
+              "cancel_all_unlinks_*, cancel_unlink_removes_share_only; leases_survive_data_ops, data_write_keeps_leases_immutable, "
+              "open_upload_container; v2_no_cleartext (non-interference in the secret, abstract blake2b); lease_constants. The model "
+              "is tied to the code by comparing get_leases / get_slot_leases and the raw bytes of every container after each operation.")
 LEVEL_NOTE = ("Lean kernel + standard axioms; blake2b abstract (its values are supplied to the driver as a table computed by nacl); "
-              "timing_safe_compare modelled as equality; expiry times < 2^32 and lease counts < 2^32 - 1 (struct.error otherwise).")
-RULE = ("seeded histories of add_lease / renew_lease (repeated, fresh and unknown secrets) / cancel_lease (holes in the lease table) / read-test-write data writes over buckets "
-        "holding mutable (v1 fabricated, v2) or immutable (v1, v2 fabricated) containers with 0..10 leases and a forward-moving clock; "
-        "a case is one operation; distinct = distinct (history index, op index); non-trivial = the bucket holds a share with >= 1 lease")
+              "timing_safe_compare modelled as equality. Hypotheses that exclude inputs: expiry times < 2^32 and immutable lease count "
+              "+ 1 < 2^32 (Python raises struct.error there, the model packs mod 2^32); request keys distinct in rtw_keeps_every_lease. "
+              "Not covered: the exact bucket-level expiry value max(old, new) (container level: renew_or_add; buckets: not smaller); "
+              "expirer-driven cancellation schedules (C26); BucketWriter's overlap check and 30-minute timeout (C22).")
+RULE = ("a fixed corpus (growth smaller than the extra-lease block with 7 leases, holes after cancel, upload overruns, secrets / hashes "
+        "ending in 0x00, renew-by-add without spare space) followed by seeded histories of add_lease / renew_lease (repeated, fresh and "
+        "unknown secrets) / cancel_lease (holes in the lease table) / allocate_buckets on buckets that already hold shares / "
+        "read-test-write data writes / immutable uploads (in-bounds, exact and overrunning BucketWriter writes) over buckets holding "
+        "mutable (v1 fabricated, v2) or immutable (v1, v2 fabricated) containers with 0..10 leases, available space 0 / small / large "
+        "and a forward-moving clock; a case is one operation; distinct = distinct (history index, op index); non-trivial = the bucket "
+        "holds a share with >= 1 lease")
 TRUSTED = ["lean/Tahoe/Storage/Lease.lean, Mutable.lean, Slot.lean are hand transcriptions of the lease code paths",
-           "blake2b (nacl) abstract in the model; harness supplies its values", "v1 containers and immutable shares are fabricated by the harness"]
-ASSUMPTIONS = ["timing_safe_compare is equality", "expiry times < 2^32", "lease secrets are 32 bytes (shorter ones are zero-padded by struct.pack)"]
+           "blake2b (nacl) abstract in the model; harness supplies its values",
+           "v1 containers and pre-existing immutable shares are fabricated by the harness; harness-side raw lease parser (sc.parse_leases)"]
+ASSUMPTIONS = ["timing_safe_compare is equality", "expiry times < 2^32, lease counts + 1 < 2^32 (struct.error otherwise)",
+               "lease secrets are 32 bytes (shorter ones are zero-padded by struct.pack)", "get_available_space() is patched by the harness to the value under test"]
 
 RENEWAL = 31 * 24 * 60 * 60
 WE = hx(b"W" * 32)
